@@ -123,6 +123,7 @@ class World:
                           "parent_nid": before["nid"] if before else None, "tag_nid": before["nid"] if before else None,
                           "sender_admin": (str(sender) in before["admins"].split(",")) if before else None,
                           "sender_queue": bool(before and (before["pa"] or before["pr"])),   # proposals queued in the sender's store: its commit carries them
+                          "sender_pa": before["pa"] if before else "", "sender_pr": before["pr"] if before else "",
                           "line": line}
         t = line.split()
         if t[0] == "leave":
@@ -684,6 +685,18 @@ def oracle_world(w):
                                                    and (ev.get("line") or "").startswith("selfupdate"))
                         sig = "rollback-before-authorisation" if (r0.startswith("err:CommitFromNonAdmin") or unauth) else "refused-after-rollback"
                         n_ev = int(t[2])
+                        if sig == "refused-after-rollback" and ev.get("kind") == "commit" and ev.get("sender_queue") and not ev.get("adv"):
+                            # open finding rollback-then-missing-proposal: the better commit carries, BY REFERENCE, proposals its author had queued
+                            # (a leave it is committing, a swept proposal); the receiver rolled back to a state in which it does not hold all of
+                            # them, so the commit cannot be staged — after the rollback.  Preconditions: a commit, better than the applied sibling,
+                            # whose author's queue at creation is not contained in the receiver's queue after the rollback.
+                            applied2 = [n2 for n2, (st2, _e2) in before["recs"].items()
+                                        if st2 == "k" and n2 in w.events and w.events[n2].get("parent_epoch") == f["epoch"] and n2 != n_ev]
+                            better = applied2 and None not in (ev.get("ts"), ev.get("idnum")) and \
+                                all((ev["ts"], ev["idnum"]) < (w.events[n2]["ts"], w.events[n2]["idnum"]) for n2 in applied2)
+                            have = lambda mine, theirs: set(x for x in theirs.split(",") if x) <= set(x for x in mine.split(",") if x)
+                            if better and not (have(f["pr"], ev.get("sender_pr", "")) and have(f["pa"], ev.get("sender_pa", ""))):
+                                sig = "rollback-then-missing-proposal"
                         if sig == "rollback-before-authorisation":
                             # the listed mechanism needs the forged commit to be MIP-03-BETTER than the sibling this client had applied
                             # for that epoch (that comparison is what happens before the authorisation); a rollback for a forged commit
